@@ -31,7 +31,7 @@ def _calls(fn):
 def c12_shared(R):
     tree = R.tree
     m = tree.mod(CO)
-    fn = tree.func(CO, "CompositeFrontend._shared_solvers")
+    fn = tree.func_inlined(CO, "CompositeFrontend._shared_solvers")  # private helpers are part of the body
     F = util.Frags(fn)
     seeded = F.has("solvers_by_id = {id(s): s for s in self._solver_list}") and F.has("common_solvers = set(solvers_by_id.keys())")
     R.check(
@@ -373,7 +373,7 @@ def _plain_names(e):
 @rule(
     "C04.intshift",
     props=("C04",),
-    floor=2,
+    floor=1,
     family="GRD",
     desc="in the construction-time code (simplifiers, operation plumbing, AST classes) a Python `<<` / `**` on "
     "plain integers whose amount is a value taken out of an AST (`x.args[k]`) is dominated by a comparison "
@@ -448,7 +448,7 @@ def c04_intshift(R):
                     f"({sorted(amt_names)}) and no dominating bound on it: a shift constant of 2**63 makes building "
                     f"the expression exhaust memory instead of returning an AST or a claripy error",
                 )
-    R.need(n >= 2, "no integer shift by an AST-derived amount found (anchor vanished)")
+    R.need(n >= 1, "no integer shift by an AST-derived amount found (anchor vanished)")
 
 
 # ----------------------------------------------------------------------------- C08.canon (seed C08-canonicalize-renames-per-call)
@@ -457,7 +457,7 @@ def c04_intshift(R):
 @rule(
     "C08.canon",
     props=("C08",),
-    floor=4,
+    floor=3,
     family="GRD",
     desc="Base.canonicalize assigns a canonical name to a variable only when the caller's map has none for it "
     "(every store var_map[k] = ... is dominated by `k not in var_map`), the map it threads through is the caller's, "
@@ -511,7 +511,7 @@ def _is_empty_list(v):
 @rule(
     "C11.pending",
     props=("C11", "C09", "C14"),
-    floor=5,
+    floor=3,
     family="PAIR",
     desc="the list of accepted-but-not-yet-asserted constraints (FullFrontend._to_add) is emptied only where those "
     "constraints cannot be lost: on a fresh object, right after all constraints were asserted into the native solver, "
@@ -569,7 +569,7 @@ def c11_pending(R):
                 f"and was not just given all constraints: a constraint that was accepted but not yet asserted is never "
                 f"asserted, so later answers ignore it while it is still listed in .constraints",
             )
-    R.need(n >= 5, f"only {n} places empty _to_add")
+    R.need(n >= 3, f"only {n} places empty _to_add")
 
 
 # ----------------------------------------------------------------------------- C09.arms (seed C09-abstract-rotateright-as-left)
@@ -578,7 +578,7 @@ def c11_pending(R):
 @rule(
     "C09.arms",
     props=("C09",),
-    floor=5,
+    floor=3,
     family="TAB",
     desc="in BackendZ3._abstract_internal an arm selected by `op_name == K` that rebuilds the node through a claripy "
     "operation constructor uses the constructor named K, with the Z3 children in their original order",
@@ -631,7 +631,7 @@ def c09_arms(R):
             f"Z3 (simplification, model-independent rewriting) is a different operation / operand order than went in",
             construct=f"_abstract_internal arm {keys[0]}",
         )
-    R.need(n >= 5, f"only {n} constructor arms found in _abstract_internal")
+    R.need(n >= 3, f"only {n} constructor arms found in _abstract_internal")
 
 
 # ----------------------------------------------------------------------------- C16.checked (pre-existing defect reported by a seeding agent)
